@@ -116,7 +116,11 @@ func checkMain(args []string) int {
 		W = total
 	}
 	t0 := time.Now()
-	fmt.Printf("check %s tier=%s VERIF_SEED=%d runs=%d workers=%d\n", prop, *tier, seed, total, W)
+	planned := 0
+	for j := range spec.Profiles {
+		planned += int(float64(total)*spec.Shares[j] + 0.5)
+	}
+	fmt.Printf("check %s tier=%s VERIF_SEED=%d runs=%d workers=%d\n", prop, *tier, seed, planned, W)
 
 	findings := loadFindings()
 	exit := 0
@@ -160,13 +164,8 @@ func checkMain(args []string) int {
 	defer os.RemoveAll(tmp)
 	tasks := make([][]task, W)
 	for j, p := range spec.Profiles {
+		// shares are relative to the nominal run count and need not sum to one
 		n := int(float64(total)*spec.Shares[j] + 0.5)
-		if j == len(spec.Profiles)-1 {
-			n = total
-			for jj := 0; jj < j; jj++ {
-				n -= int(float64(total)*spec.Shares[jj] + 0.5)
-			}
-		}
 		for w := 0; w < W; w++ {
 			a, b := n*w/W, n*(w+1)/W
 			if b > a {
